@@ -291,7 +291,7 @@ func (m *pop3Model) retainGuard(at *ssa.BasicBlock, idx ssa.Value, want bool) bo
 				continue
 			}
 			ia, ok := u.X.(*ssa.IndexAddr)
-			if !ok || !eng.SameField(eng.LoadedField(ia.X), m.fRetain) {
+			if !ok || !eng.SameField(m.loadedField(ia.X), m.fRetain) {
 				continue
 			}
 			if sameIndex(ia.Index, idx) {
@@ -300,6 +300,21 @@ func (m *pop3Model) retainGuard(at *ssa.BasicBlock, idx ssa.Value, want bool) bo
 		}
 	}
 	return false
+}
+
+// loadedField: the session field a slice value was loaded from; a slice handed to a helper as
+// a parameter (processDeletes(s.user, s.messages, s.retain)) stands for what its only call site
+// passes.
+func (m *pop3Model) loadedField(v ssa.Value) *types.Var {
+	if f := eng.LoadedField(v); f != nil {
+		return f
+	}
+	if prm, ok := eng.StripConv(v).(*ssa.Parameter); ok {
+		if w := m.c.P.Actual(prm); w != ssa.Value(prm) {
+			return eng.LoadedField(w)
+		}
+	}
+	return nil
 }
 
 // sameIndex: syntactically equal index expressions (same value, or the same n-1 over the
@@ -392,7 +407,7 @@ func checkC13(c *Ctx) {
 	for _, s := range rsts {
 		okMake := false
 		if mk, ok := s.Store.Val.(*ssa.MakeSlice); ok {
-			if lx := eng.LenOf(mk.Len); lx != nil && eng.SameField(eng.LoadedField(lx), m.fMessages) {
+			if lx := eng.LenOf(mk.Len); lx != nil && eng.SameField(m.loadedField(lx), m.fMessages) {
 				okMake = true
 			}
 		}
@@ -403,7 +418,7 @@ func checkC13(c *Ctx) {
 	nLen, nDec := 0, 0
 	var decs []eng.FieldStore
 	for _, s := range cnts {
-		if lx := eng.LenOf(s.Store.Val); lx != nil && eng.SameField(eng.LoadedField(lx), m.fMessages) {
+		if lx := eng.LenOf(s.Store.Val); lx != nil && eng.SameField(m.loadedField(lx), m.fMessages) {
 			nLen++
 			continue
 		}
@@ -489,7 +504,7 @@ func (c *Ctx) c13Commit(m *pop3Model) {
 					}
 				}
 				if u, ok := recv.(*ssa.UnOp); ok {
-					if ia, ok := u.X.(*ssa.IndexAddr); ok && eng.SameField(eng.LoadedField(ia.X), m.fMessages) {
+					if ia, ok := u.X.(*ssa.IndexAddr); ok && eng.SameField(m.loadedField(ia.X), m.fMessages) {
 						okID = true
 						idx = ia.Index
 					}
@@ -542,7 +557,7 @@ func (c *Ctx) c13Commit(m *pop3Model) {
 			}
 			// mailbox argument = Session.user
 			mb := args[len(args)-2]
-			if f := eng.LoadedField(mb); f == nil || f.Name() != "user" {
+			if f := m.loadedField(mb); f == nil || f.Name() != "user" {
 				r.Bad("C13/COMMIT", cons, p.InstrPos(in), "RemoveMessage does not address the session's own mailbox")
 				return
 			}
@@ -722,7 +737,7 @@ func (c *Ctx) c13Marks(m *pop3Model, decs []eng.FieldStore) {
 				return
 			}
 			ia, ok := st.Addr.(*ssa.IndexAddr)
-			if !ok || !eng.SameField(eng.LoadedField(ia.X), m.fRetain) {
+			if !ok || !eng.SameField(m.loadedField(ia.X), m.fRetain) {
 				// retain reset writes through a local loaded once: s.retain[i] = true → IndexAddr on load
 				return
 			}
@@ -764,7 +779,7 @@ func (c *Ctx) c13Marks(m *pop3Model, decs []eng.FieldStore) {
 		paired := false
 		eng.EachInstr(d.Fn, func(in ssa.Instruction) {
 			if st, ok := in.(*ssa.Store); ok && st.Block() == d.Store.Block() {
-				if ia, ok := st.Addr.(*ssa.IndexAddr); ok && eng.SameField(eng.LoadedField(ia.X), m.fRetain) {
+				if ia, ok := st.Addr.(*ssa.IndexAddr); ok && eng.SameField(m.loadedField(ia.X), m.fRetain) {
 					if b, isC := eng.ConstBool(st.Val); isC && !b {
 						paired = true
 					}
@@ -793,7 +808,7 @@ func (c *Ctx) c13Marks(m *pop3Model, decs []eng.FieldStore) {
 					return
 				}
 				ia, ok := st.Addr.(*ssa.IndexAddr)
-				if !ok || !eng.SameField(eng.LoadedField(ia.X), m.fRetain) {
+				if !ok || !eng.SameField(m.loadedField(ia.X), m.fRetain) {
 					return
 				}
 				if b, isC := eng.ConstBool(st.Val); !isC || b {
@@ -871,7 +886,7 @@ func (m *pop3Model) snapshotLoops() []snapLoop {
 			}
 			// a loop over retain is a loop over the snapshot: retain is only ever
 			// make([]bool, len(messages)) (C13/SNAPSHOT/retain-length)
-			if sl == nil || !eng.SameField(eng.LoadedField(sl), m.fMessages) && !eng.SameField(eng.LoadedField(sl), m.fRetain) {
+			if sl == nil || !eng.SameField(m.loadedField(sl), m.fMessages) && !eng.SameField(m.loadedField(sl), m.fRetain) {
 				continue
 			}
 			if !b.Dominates(b.Succs[0]) {
@@ -932,6 +947,41 @@ func (c *Ctx) c13Views(m *pop3Model) {
 						}
 					}
 					if !feeds {
+						continue
+					}
+					nEff++
+					if !m.retainGuard(b, lp.idx, true) {
+						probs = append(probs, "accumulation at "+p.InstrPos(in)+" is not conditional on retain[i]: STAT counts messages marked deleted")
+					}
+				case *ssa.Store:
+					// accumulation kept in memory: a local variable or a field of a local record
+					// (drop.count++, drop.size += msg.Size()) updated from its own previous value
+					addr := x.Addr
+					base := addr
+					if fa, ok := addr.(*ssa.FieldAddr); ok {
+						base = fa.X
+					}
+					if _, isLocal := base.(*ssa.Alloc); !isLocal {
+						continue
+					}
+					bo, ok := x.Val.(*ssa.BinOp)
+					if !ok || bo.Op != token.ADD {
+						continue
+					}
+					self := false
+					for _, opnd := range []ssa.Value{bo.X, bo.Y} {
+						if u, ok := eng.StripConv(opnd).(*ssa.UnOp); ok && u.Op == token.MUL {
+							if u.X == addr {
+								self = true
+							}
+							if fa1, ok := u.X.(*ssa.FieldAddr); ok {
+								if fa2, ok := addr.(*ssa.FieldAddr); ok && fa1.X == fa2.X && fa1.Field == fa2.Field {
+									self = true
+								}
+							}
+						}
+					}
+					if !self {
 						continue
 					}
 					nEff++
@@ -1190,7 +1240,7 @@ func parsedIndexInSprintf(v ssa.Value, m *pop3Model) ssa.Value {
 			return nil
 		}
 		ia, ok := u.X.(*ssa.IndexAddr)
-		if !ok || !eng.SameField(eng.LoadedField(ia.X), m.fMessages) {
+		if !ok || !eng.SameField(m.loadedField(ia.X), m.fMessages) {
 			return nil
 		}
 		if loopIdx[eng.StripConv(ia.Index)] || loopIdx[ia.Index] {
@@ -1237,7 +1287,7 @@ func (m *pop3Model) guardsBound(fn *ssa.Function, nv ssa.Value, at *ssa.BasicBlo
 						lower = true
 					}
 				}
-				if lx := eng.LenOf(y); lx != nil && eng.SameField(eng.LoadedField(lx), m.fMessages) {
+				if lx := eng.LenOf(y); lx != nil && eng.SameField(m.loadedField(lx), m.fMessages) {
 					if rel.Op == token.LEQ {
 						upper = true
 					}
@@ -1430,7 +1480,7 @@ func (m *pop3Model) accessorOf(fn *ssa.Function, send *ssa.Call, idx ssa.Value) 
 			return false
 		}
 		ia, ok := u.X.(*ssa.IndexAddr)
-		return ok && eng.SameField(eng.LoadedField(ia.X), m.fMessages) && sameIndex(ia.Index, idx)
+		return ok && eng.SameField(m.loadedField(ia.X), m.fMessages) && sameIndex(ia.Index, idx)
 	}
 	for _, a := range sprintfArgs(send.Call.Args[len(send.Call.Args)-1]) {
 		a = unwrapIface(a)
@@ -1569,7 +1619,7 @@ func (m *pop3Model) collectsMarked(hc *ssa.Call) string {
 					continue
 				}
 				ea, ok := u.X.(*ssa.IndexAddr)
-				if !ok || !eng.SameField(eng.LoadedField(ea.X), m.fMessages) {
+				if !ok || !eng.SameField(m.loadedField(ea.X), m.fMessages) {
 					bad = "appends something that is not a snapshot element"
 					continue
 				}
